@@ -25,7 +25,7 @@ RULE = (
 ASSUMPTIONS = ["dense reference (n<=8) / Pauli reference (any n); measure_x / measure_y are modelled as the code documents them: "
                "basis change followed by a Z measurement (the tableau is left in the rotated frame)"]
 REQUIRED_CLASSES = {"walk": ["random_measurement", "size_change", "nonzero_signs_at_insert", "remove_entangled",
-                             "remove_product", "tensor", "swap_with_signs", "run_circuit"]}
+                             "remove_product", "tensor", "swap_with_signs", "run_circuit", "read_only_query"]}
 
 MAXQ = 8
 G1 = ["H", "P", "Pdag", "X", "Y", "Z"]
@@ -359,6 +359,21 @@ def check_walk(case, sub="walk", start=None):
             cl.add("remove_product" if allprod else "remove_entangled")
             saw_size = True
             cl.add("size_change")
+        elif op == "query":
+            # read-only questions about the tableau (conversion to a stabilizer tableau, canonical form, equality with a copy):
+            # they must not change the tableau that is walked on
+            if n == 0:
+                continue
+            from graphiq.backends.stabilizer.functions.stabilizer import canonical_form
+
+            cur_tab = cur()
+            site, icls = "query", "plain"
+            # one question per step (two in a row could undo each other's damage)
+            if (step[1] if len(step) > 1 else 0) % 2 == 0:
+                guarded(sub, icls, canonical_form, cur_tab.to_stabilizer())
+            else:
+                guarded(sub, icls, lambda: Stabilizer(cur_tab) == Stabilizer(cur_tab.copy()))
+            cl.add("read_only_query")
         elif op == "tensor":
             if use_class:
                 continue
@@ -590,6 +605,7 @@ def st_step(large=False):
         st.tuples(st.just("mz"), i, st.integers(0, 2), seed),
         st.tuples(st.just("reset"), st.integers(0, 2), i, st.integers(0, 1), st.integers(0, 2), seed),
         st.tuples(st.just("circ"), gates, st.integers(0, 1)),
+        st.tuples(st.just("query"), st.integers(0, 1)),
     ]
     if not large:
         opts += [
